@@ -19,8 +19,8 @@ import subprocess
 import sys
 import time
 
-WT = "/tmp/seed-wt"
-BD = "/verif/build/alt-seed"
+WT = os.environ.get("SEED_WT", "/tmp/seed-wt")
+BD = os.environ.get("SEED_BD", "/verif/build/alt-seed")
 
 
 def sh(cmd, timeout=3600, cwd=None):
